@@ -78,3 +78,25 @@ Definition report_of_script (expected received : bytes) (ops : list opcode) (nam
   if beq expected received then []
   else render_nocolor
          (unified_of_script (split_newlines expected) (split_newlines received) ops) name line.
+
+(* ---------- the number of context lines as a parameter ----------
+
+   [context] (= 3 in snaps/diff.go) is presentation: it decides how many unchanged lines are shown
+   around a change and where hunks are cut, nothing else.  The functions above are the
+   [n := context] instances of the following ones ([ScriptGenP.groups_of_script_n_context],
+   [unified_of_script_n_context], [report_of_script_n_context], all by computation). *)
+
+(* GetGroupedOpCodes(n) of an arbitrary script *)
+Definition groups_of_script_n (n : nat) (ops : list opcode) : list (list opcode) :=
+  grouped_of_codes n ops.
+
+Definition unified_of_script_n (n : nat) (al bl : list bytes) (ops : list opcode) : acc3 :=
+  let show_range := (10 <? List.length al) || (10 <? List.length bl) in
+  fold_right (fun g acc => acc_add (group_lines show_range al bl g) acc) ([], 0, 0)
+             (groups_of_script_n n ops).
+
+Definition report_of_script_n (n : nat) (expected received : bytes) (ops : list opcode)
+           (name : bytes) (line : nat) : bytes :=
+  if beq expected received then []
+  else render_nocolor
+         (unified_of_script_n n (split_newlines expected) (split_newlines received) ops) name line.
